@@ -185,6 +185,12 @@ func verifyReply6(dgram []byte, sent []server.Sent, peer *net.UDPAddr, boundIdx,
 			return
 		}
 	}
+	if !peer.IP.IsLinkLocalUnicast() && s.HasCM && s.IfIndex != 0 && s.IfIndex != recvIf && s.IfIndex != boundIdx {
+		// whether replies to global sources are pinned at all is not asserted; pinning one to an interface that is
+		// neither the listener's nor the one the request arrived on can only be state left by another datagram
+		res.Viol = core.Violate("C12/reply-pinned-to-unrelated-interface", "reply to %v carries interface index %d; the request arrived on %d, the listener is bound to %d", peer.IP, s.IfIndex, recvIf, boundIdx)
+		return
+	}
 	// peel the reply's layers
 	b := s.Payload
 	for i := 0; i < depth; i++ {
